@@ -138,7 +138,12 @@ const (
 	SlotFaultAck    = 14 // parent -> child: image of that moment taken
 	SlotFaultKind   = 15 // FaultCode of the last applied fault
 	SlotFaultLimit  = 60 // RLIMIT_FSIZE value last applied (0: none)
-	SlotFaultOk     = 61 // 1 when the writer completed although a fault was planned (limit never bit / close came late)
+	SlotFaultOk     = 61
+	SlotLiveChecks  = 62 // in-process sweeps (child side)
+	SlotLiveReaders = 63
+	SlotLiveBytes   = 64
+	SlotLiveLag     = 65 // sweeps in the lagging-reader/collector shape
+	SlotLiveFault   = 66 // sweeps after a refused log write // 1 when the writer completed although a fault was planned (limit never bit / close came late)
 	SlotGenBase     = 16 // per generation: started, rdbHanded, aofHanded(abs right edge), logDone
 	GenSlots        = 4
 	GenStarted      = 0
